@@ -166,7 +166,7 @@ struct PkgEngine : Engine {
 			static const int pf[] = {FMT_EPUB, FMT_EPUB, FMT_ODT, FMT_TEXTBUNDLE_COMPRESSED, FMT_ITMZ};
 			o["fmt"] = pf[w.below(5)];
 			o["doc"] = (int64_t)w.below((uint64_t)ndocs);
-			unsigned long ext = gen_ext(w, true) & ~(X_SNIPPET | X_COMPATIBILITY | X_NO_METADATA | X_CRITIC_ACCEPT | X_CRITIC_REJECT);
+			unsigned long ext = gen_ext(w, true) & ~(X_SNIPPET);
 			if (labels_bias && w.chance(1, 2)) ext = (ext & ~X_RANDOM_FOOT) | X_RANDOM_LABELS;      // random labels WITHOUT random footnotes: only the label-side srand runs
 			else if (w.chance(1, 3)) ext |= X_RANDOM_FOOT;
 			else if (w.chance(1, 3)) ext |= X_RANDOM_LABELS;      // the other library-side srand (one per heading label)
